@@ -1,9 +1,71 @@
-"""C15 sort_new_items(): stable placement over long edit histories (structural clauses; DESIGN.md section 3, C15)"""
-from . import mir, panics, scopes
+"""C15 sort_new_items(): stable placement over arbitrarily long edit histories (structural clauses; DESIGN.md section 3, C15)
+
+R15-overflow arithmetic obligations on the persistent uid (the doubling scheme): known finding
+R15-cover    every uid-carrying child list of Module goes through exactly one order-preserving update per call
+R15-frame    only layout fields are written
+R15-table    uid updates with their control predicates equal the reviewed table (e.g. `maxid > 0` for IF_DATA / USER_RIGHTS)
+R15-stable   the writer orders a group with a stable sort (elements that compare equal keep their order between writes)
+"""
+import re
+from . import mir, sym, panics, scopes, diag, sortrules, refs
+from .common import Finding
 
 
 def run(chk):
     prog = mir.prog()
-    scope = {f for f in prog.reachable([r for r in ("sort::sort_new_items",) if r in prog.bodies]) if f.startswith("sort::")}
+    if "sort::sort_new_items" not in prog.bodies:
+        chk.add(Finding("R15-frame", "R15-frame::anchor", "sort::sort_new_items not found"))
+        return
+    scope = {f for f in prog.reachable(["sort::sort_new_items"]) if f.startswith("sort::")}
     panics.run_scope(chk, "R15-overflow", prog, scope, what="arithmetic/index obligations on the persistent uid in sort_new_items() and its helpers", floor=10)
+    sortrules.frame(chk, "R15-frame", prog, "sort::sort_new_items")
+    # ---------------------------------------------------------------- R15-cover
+    A = sym.Analyzer(prog, opaque=[r"sort::sort_objectlist_new", r"sort::sort_optional_item", r".*::get_layout_mut", r".*::get_layout"])
+    S = A.summary("sort::sort_new_items")
+    touched = {}
+    for ev in S.events:
+        paths = set()
+        if ev[0] == "call" and ev[2]:
+            for t in ev[2][0]:
+                r, p = refs.term_path(t)
+                if p:
+                    paths.add(p)
+            if re.search(r"sort::(sort_objectlist_new|sort_optional_item)$", ev[1]) or (ev[1].endswith("get_layout_mut")):
+                for p in paths:
+                    segs = p.split("/")
+                    for i, sg in enumerate(segs):
+                        if sg.startswith("Module."):
+                            touched.setdefault(sg, set()).add(ev[1].split("::")[-1])
+        elif ev[0] == "write":
+            r, p = refs.term_path(ev[1])
+            segs = p.split("/")
+            for sg in segs:
+                if sg.startswith("Module.") and segs[-1] in ("Comment.uid", "BlockInfo.uid"):
+                    touched.setdefault(sg, set()).add("write")
+    adt = prog.adts.get("specification::Module")
+    n = 0
+    if adt:
+        for f in adt["variants"][0]["fields"]:
+            if f["name"] in ("name", "long_identifier", "__block_info"):
+                continue
+            n += 1
+            if "Module." + f["name"] not in touched:
+                chk.add(Finding("R15-cover", "R15-cover::Module." + f["name"], "sort_new_items() does not renumber Module.%s: its elements keep their old uids while all others are doubled, so they move relative to the already placed elements" % f["name"], prog.bodies["sort::sort_new_items"].where()))
+    chk.rule("R15-cover", "uid-carrying children of Module renumbered by sort_new_items", n, floor=27)
+    # ---------------------------------------------------------------- R15-table
+    fids = [f for f in scope if prog.bodies[f].file == "a2lfile/src/sort.rs"]
+    diag.compare(chk, "R15-table", "sort", sortrules.sort_table(prog, fids), "uid updates reachable from sort::sort_new_items with their control predicates, compared with the reviewed table", floor=15,
+                 fn_filter=lambda fn: fn in {mir.strip_generics(f) for f in fids})
+    # ---------------------------------------------------------------- R15-stable
+    n = 0
+    for fid, b in prog.bodies.items():
+        if b.file != "a2lfile/src/writer.rs":
+            continue
+        for bi, t in b.calls():
+            r = mir.strip_generics((t.get("res") or "").lstrip("?"))
+            if re.search(r"slice::sort", r) or re.search(r"::sort(_unstable)?(_by|_by_key)?$", r):
+                n += 1
+                if "unstable" in r:
+                    chk.add(Finding("R15-stable", "R15-stable::" + mir.strip_generics(fid), "%s orders output elements with %s: elements that compare equal (same uid, line and tag) can change places between two writes" % (fid, r), b.where(t["ln"])))
+    chk.rule("R15-stable", "sort calls in writer.rs that are stable", n, floor=1)
     chk.assumptions += ["not decided: placement 'directly after the last placed element of its kind' (runtime order)"]
